@@ -218,6 +218,8 @@ def extract_region(path: str, src: str, fn_name: str, start_pat: str, end_pat: s
         raise ExtractError("region anchor %s :: fn %s matched %d items" % (path, fn_name, len(cands)))
     st, bo, bc = cands[0]
     body = nc[bo + 1:bc]
+    if start_pat == "*":
+        return dict(impl="", sig="", body=body, line_start=line_of(src, bo + 1), line_end=line_of(src, bc), body_line=line_of(src, bo + 1))
     def rx(p):
         toks = re.findall(r"[A-Za-z_0-9]+|\S", p)
         return r"\s*".join(re.escape(t) for t in toks)
